@@ -610,6 +610,14 @@ def fam_cluster(tier, base):
     ra = verif.tlc("MC_ClusterCreate", "MC_ClusterCreate_asfound.cfg", timeout=3000)
     if ra.error != "invariant:RecoveredClean":
         raise Broken("ClusterCreate with the clean-up order as found: expected RecoveredClean to fail, got %s" % ra.error)
+    # recovery itself as a step machine (events in log order, one step per external call of each handler, the event deleted
+    # last): running to its end it must repair exactly what the atomic model of recovery repairs (C14's quantifier), and
+    # always ends. Beyond C14 (diagnostic): when the recovering instance may itself stop once, TLC exhibits the usage that is
+    # given back twice (RemoveWorkload gives the usage back before it removes the record; the event is deleted last).
+    rs = verif.model_check("MC_ClusterCreate", "MC_ClusterCreate_recsteps.cfg", timeout=3000)
+    rd = verif.tlc("MC_ClusterCreate", "MC_ClusterCreate_reccrash.cfg", timeout=3000)
+    if rd.error != "invariant:RecoveredClean":
+        raise Broken("ClusterCreate with a crash during recovery: %s" % rd.error)
     inputs, trace = base + ".in.ndjson", base + ".trace.ndjson"
     every = 4 if q else 2
     sel = []
@@ -691,8 +699,8 @@ def fam_cluster(tier, base):
     envfail = cnt('"class":"envfail"')
     if envfail > max(3, runs // 50):
         raise Broken("the embedded etcd failed %d times in %d runs (overloaded machine?): too many runs could not be judged" % (envfail, runs))
-    return dict(trace=trace, viols=viols, states=r.distinct + rc.distinct, transitions=r.generated + rc.generated,
-                configs=[cfg, "MC_ClusterCreate_fixed.cfg", "MC_ClusterCreate_asfound.cfg", "Trace_Cluster.cfg"], window=80,
+    return dict(trace=trace, viols=viols, states=r.distinct + rc.distinct + rs.distinct, transitions=r.generated + rc.generated + rs.generated,
+                configs=[cfg, "MC_ClusterCreate_fixed.cfg", "MC_ClusterCreate_asfound.cfg", "MC_ClusterCreate_recsteps.cfg", "Trace_Cluster.cfg"], window=80,
                 traces={"*": runs, "C14": crashes}, samples={"*": [json.loads(x) for x in lines[:2]]},
                 nontrivial={"C10": runs, "C11": faults, "C12": cnt('"kind":"create","op":"op"'), "C13": cnt('"obs":['), "C14": crashes, "C20": cnt('"target":"lock"'), "C22": runs, "C30": cnt('"ev":"Call","kind":"lambda"')},
                 notes="%d TLC-enumerated scenarios (node layout x pre-deployed workloads x operation); each run fault-free and then with every single-fault placement (deployments: every %s single-fault / crash placement) among its external calls: %d runs, %d injected failures, %d crashes followed by recovery in a fresh core instance; deviations outside the listed properties (control calls; diagnostic): %s" % (len(sel), "%d-th" % every if every > 1 else "", runs, faults, crashes, refdev or "none"))
